@@ -280,7 +280,7 @@ func (e *Engine) unknownCall(s *State, name string, sig *types.Signature, recv V
 }
 
 func sanitize(n string) string {
-	return strings.NewReplacer("(", "", ")", "", "*", "", ".", "_", "/", "_", "-", "_", " ", "").Replace(shortName(n))
+	return strings.NewReplacer("(", "", ")", "", "*", "", ".", "_", "/", "_", "-", "_", " ", "", ":", "_", "$", "_", "[", "_", "]", "_", ",", "_").Replace(shortName(n))
 }
 
 // traceIntrinsic evaluates the verifspec.Trace* helpers against the ghost trace of the current path.
@@ -312,7 +312,7 @@ func (e *Engine) traceIntrinsic(s *State, name string, args []Val) (Val, bool) {
 			return intT(0), true
 		}
 		return s.trace[i].Args[k], true
-	case "vsTraceRetInt", "vsTraceRetErr":
+	case "vsTraceRetInt", "vsTraceRetErr", "vsTraceRetInt64", "vsTraceRetUint32":
 		i, k := idx(args[0]), idx(args[1])
 		if i < 0 || i >= len(s.trace) || k < 0 || k >= len(s.trace[i].Results) {
 			if name == "vsTraceRetErr" {
